@@ -74,6 +74,12 @@ class EvalInterp(Interp):
             return False
         if v is True:
             return True
+        if isinstance(v, str):
+            return v != ''
+        if isinstance(v, AList):
+            return len(v.l) != 0
+        if isinstance(v, ADict):
+            return True
         raise Unrecognised(self.rule, f'value_boolean of {v!r}', self.mod.rel)
 
     def truth(self, v, node=None):
@@ -539,3 +545,149 @@ def report(chk, rule_by_cat, what):
                 continue
             seen.add(key)
             chk.bad(rule, mod, 'evaluate_expression', f'scenario: {desc}', f'abstract evaluation of `{desc}` {msg} ({len(items)} of {counts.get(cat, 0)} scenarios of this kind deviate)', node=node)
+
+
+# ------------------------------------------------------------------------------------------------ operator table by evaluation
+class OpInterp(EvalInterp):
+    """value_normalize_datetime, value_string and datetime.timedelta are oracles building terms; everything else of the binary / unary sections is evaluated"""
+
+    def __init__(self, repo, mod, rule='E6e'):
+        super().__init__(repo, mod, rule)
+        self.oracles['value_normalize_datetime'] = lambda args, node: Sym('ndt', args[0])
+        self.oracles['value_string'] = self._vstring
+        self.oracles['value_round_number'] = lambda args, node: Sym('round', args[0], args[1]) if isinstance(args[0], Sym) else self.sub_round(args, node)
+
+    def sub_round(self, args, node):
+        other = self.repo.module('value')
+        return self.sub_interp(other).call_function(other.funcs['value_round_number'], list(args), node)
+
+    def _vstring(self, args, node):
+        from .libref import ref_string, Fail
+        v = reify(args[0])
+        if isinstance(v, Sym):
+            return Sym('vstr', v)
+        return ref_string(v)
+
+    def host_function(self, name, args, e):
+        if name == 'datetime.timedelta':
+            kw = tuple(sorted((getattr(self, '_kwargs', None) or {}).items(), key=lambda kv: kv[0]))
+            self._kwargs = {}
+            return Sym('timedelta', tuple(args), kw)
+        return super().host_function(name, args, e)
+
+    def compare(self, op, a, b, node):
+        # the evaluator's own guards compare numbers; opaque values never reach a host comparison in a correct evaluator
+        if isinstance(a, Sym) or isinstance(b, Sym):
+            raise HostTruth(node)
+        return super().compare(op, a, b, node)
+
+
+def _op_samples():
+    D, DD = Sym('val', 'd1', True, 'datetime'), Sym('val', 'd2', True, 'date')
+    F, RX = Sym('val', 'f', True, 'function'), Sym('val', 'rx', True, 'regex')
+    return [('null', None), ('true', True), ('int 2', 2), ('int 0', 0), ('float 2.5', 2.5), ('float -3.0', -3.0), ("'s'", 's'), ("''", ''), ('datetime', D), ('date', DD),
+            ('array', [1.0]), ('object', {'a': 1.0}), ('function', F), ('regex', RX)]
+
+
+def _is_num(v):
+    return isinstance(v, (int, float)) and not isinstance(v, bool)
+
+
+def _is_dt(v):
+    return isinstance(v, Sym) and v.kind == 'val' and v.args[2] in ('datetime', 'date')
+
+
+def expected_binary(op, l, r):
+    """-> ('value', v) | ('term', predicate description, predicate) for datetime arithmetic"""
+    from .libref import ref_string
+    if op in ('-', '*', '/', '%', '**') and _is_num(l) and _is_num(r):
+        try:
+            v = {'-': lambda: l - r, '*': lambda: l * r, '/': lambda: l / r, '%': lambda: l % r, '**': lambda: l ** r}[op]()
+        except (ZeroDivisionError, OverflowError, ValueError):
+            return ('value', None)
+        return ('value', None if isinstance(v, complex) else v)
+    if op == '+':
+        if _is_num(l) and _is_num(r):
+            return ('value', l + r)
+        if isinstance(l, str) or isinstance(r, str):
+            def vs(x):
+                return x if isinstance(x, str) else (Sym('vstr', x) if isinstance(x, Sym) else ref_string(x))
+            a, b = vs(l), vs(r)
+            if isinstance(a, str) and isinstance(b, str):
+                return ('value', a + b)
+            return ('value', Sym('binop', 'Add', a, b))
+        for dt, n in ((l, r), (r, l)):
+            if _is_dt(dt) and _is_num(n):
+                want = {Sym('binop', 'Add', Sym('ndt', dt), Sym('timedelta', (), (('milliseconds', n),))), Sym('binop', 'Add', Sym('timedelta', (), (('milliseconds', n),)), Sym('ndt', dt))}
+                return ('term', 'normalised datetime + timedelta(milliseconds=number)', lambda v, want=want: v in want)
+    if op == '-' and _is_dt(l) and _is_dt(r):
+        diff = Sym('binop', 'Sub', Sym('ndt', l), Sym('ndt', r))
+        secs = Sym('method', diff, 'total_seconds')
+        want = {Sym('binop', 'Mult', secs, 1000), Sym('binop', 'Mult', 1000, secs), Sym('binop', 'Mult', secs, 1000.0), Sym('binop', 'Div', diff, Sym('timedelta', (), (('milliseconds', 1),)))}
+        want |= {Sym('round', w, 0) for w in list(want)} | {Sym('round', w, 0.0) for w in list(want)}
+        return ('term', '(normalised left - normalised right) in milliseconds', lambda v, want=want: v in want)
+    return ('value', None)
+
+
+def operator_table(repo, rule='E6e'):
+    """the six arithmetic operators and unary - / ! evaluated on every ordered pair of sample operands of every value type -> (n, problems [(kind, message)]); kinds:
+    'value' (a definite deviation from the language definition), 'undecided'"""
+    mod = repo.module('runtime')
+    func = mod.funcs.get('evaluate_expression')
+    it = OpInterp(repo, mod, rule)
+    problems, n = [], 0
+    samples = _op_samples()
+    from .libsim import _abs
+    for op in ('+', '-', '*', '/', '%', '**'):
+        expr = build({'binary': {'op': op, 'left': {'variable': 'a'}, 'right': {'variable': 'b'}}})
+        for da, a in samples:
+            for db, b in samples:
+                n += 1
+                it.behaviour, it.truths, it.cmp_operands, it.free_compare = {}, {}, None, False
+                desc = f'{da} {op} {db}'
+                try:
+                    got = it.evaluate(func, expr, None, ADict({'a': _abs(a), 'b': _abs(b)}), True, 'off')
+                except HostTruth as exc:
+                    problems.append(('undecided', f'{desc}: a host truth test / comparison of an opaque value at {norm(exc.args[0])[:70] if exc.args and exc.args[0] is not None else "?"}'))
+                    continue
+                except Unrecognised as exc:
+                    problems.append(('undecided', f'{desc}: {str(exc)[:90]}'))
+                    continue
+                want = expected_binary(op, a, b)
+                if got[0] == 'raise':
+                    problems.append(('value', f'{desc} raises {got[1]}; the language defines {"null" if want == ("value", None) else "a value"}'))
+                    continue
+                v = got[1]
+                if want[0] == 'value':
+                    w = want[1]
+                    same = (v is None and w is None) or (w is not None and v is not None and type(v) is type(w) and v == w) or \
+                        (isinstance(w, (int, float)) and isinstance(v, (int, float)) and not isinstance(v, bool) and not isinstance(w, bool) and v == w)
+                    if not same:
+                        if isinstance(v, Sym) and w is not None:
+                            problems.append(('undecided', f'{desc} evaluates to the term {v!r}'[:200]))
+                        else:
+                            problems.append(('value', f'{desc} evaluates to {_fmt(got)}; the language defines {w!r}' + (' (operand types the operator does not support yield null)' if w is None else '')))
+                else:
+                    if v is None:
+                        problems.append(('value', f'{desc} evaluates to null; the language defines {want[1]}'))
+                    elif not want[2](v):
+                        problems.append(('undecided', f'{desc} evaluates to the term {v!r}, not the known form of {want[1]}'[:240]))
+    for op in ('-', '!'):
+        expr = build({'unary': {'op': op, 'expr': {'variable': 'a'}}})
+        for da, a in samples:
+            n += 1
+            it.behaviour, it.truths, it.cmp_operands, it.free_compare = {}, {}, None, False
+            try:
+                got = it.evaluate(func, expr, None, ADict({'a': _abs(a)}), True, 'off')
+            except (Unrecognised, HostTruth) as exc:
+                problems.append(('undecided', f'{op}{da}: {str(exc)[:90]}'))
+                continue
+            if op == '-':
+                w = -a if _is_num(a) else None
+                if got != ('value', w) or (w is not None and type(got[1]) is not type(w)):
+                    problems.append(('value', f'-({da}) evaluates to {_fmt(got)}; the language defines {w!r}'))
+            else:
+                truth = it._boolean([_abs(a)], None) if not isinstance(a, (list, dict, str)) else (len(a) != 0 if not isinstance(a, dict) else True)
+                if got != ('value', not truth):
+                    problems.append(('value', f'!({da}) evaluates to {_fmt(got)}; the language defines {not truth}'))
+    return n, problems
